@@ -214,6 +214,23 @@ def engine : Engine DState where
       match parseKind kind, parsePairs rest with
       | some kind, some fs => judge d (.add kind fs (impl == "ok"))
       | _, _ => bad d
+    | "addvia" :: _ :: kind :: rest =>
+      -- another entry point to the same registering section (`*jsonschema.Schema` / output schema /
+      -- the generic `AddTool[In, Out]`)
+      match parseKind kind, parsePairs rest with
+      | some kind, some fs => judge d (.add kind fs (impl == "ok"))
+      | _, _ => bad d
+    | ["addbad", _, _, _, _] =>
+      -- a registration the Add* function refuses (it panics before `featureSet.add`): nothing changes
+      judge d (.readonly none)
+    | ["addhold", _, _, _, _] =>
+      -- `Server.AddTool`'s validation section (no lock, reads no server state): nothing changes
+      judge d (.readonly none)
+    | "addrelease" :: kind :: rest =>
+      -- `Server.AddTool`'s registering section (`changeAndNotify`: `tools.add` under `Server.mu`)
+      match parseKind kind, parsePairs rest with
+      | some kind, some [f] => judge d (.add kind [f] (impl == "ok"))
+      | _, _ => bad d
     | "remove" :: kind :: rest =>
       match parseKind kind, parseKeys rest with
       | some kind, some ks => judge d (.remove kind ks)
